@@ -38,6 +38,8 @@ inductive Mode where
 LMDB) and a call into `self.adapter` (a callback into code outside the chain crate) -/
 inductive Mark where
   | commit | callback
+  /-- `self.store.<read>(…)`: a read of LMDB through a read transaction of its own -/
+  | dbread
   deriving DecidableEq, Repr
 
 /-- one event of a thread's program, generic in the lock alphabet -/
@@ -192,8 +194,33 @@ def LockEv.show : LockEv → String
   | .rel l => "-" ++ l.name
   | .mark .commit => "!commit"
   | .mark .callback => "!callback"
+  | .mark .dbread => "!dbread"
 
 def showEvs (p : List LockEv) : String := ",".intercalate (p.map LockEv.show)
+
+/-! ## Views: how many separate snapshots of the chain state an op combines
+
+A maximal interval during which the thread holds `header_pmmr` or `txhashset` (either mode) is ONE
+view: no op of the table commits while another thread holds `txhashset` (`table_commits_under_ts_write`),
+and every writer but `compact` needs `header_pmmr.write()`.  A lock-free LMDB read (`!dbread`)
+outside such an interval is a view of its own (one LMDB read transaction = one snapshot).  An op
+with `views ≤ 1` reads everything it returns from one committed state; an op with more combines
+several, which may belong to different committed states (in commit order: `observations_monotone`).
+Over-approximation: branches are emitted one after the other, so an op that takes one of two
+alternative regions counts 2. -/
+
+def isStateLock : Lock → Bool
+  | .hp => true | .ts => true | _ => false
+
+/-- `depth` = number of state locks held -/
+def viewsFrom : Nat → List LockEv → Nat
+  | _, [] => 0
+  | d, .acq l _ :: rest => if isStateLock l then (if d = 0 then 1 else 0) + viewsFrom (d + 1) rest else viewsFrom d rest
+  | d, .rel l :: rest => if isStateLock l then viewsFrom (d - 1) rest else viewsFrom d rest
+  | d, .mark .dbread :: rest => (if d = 0 then 1 else 0) + viewsFrom d rest
+  | d, .mark _ :: rest => viewsFrom d rest
+
+def views (p : List LockEv) : Nat := viewsFrom 0 p
 
 /-! ## Executable scheduler (strict writer preference) used by the driver -/
 
